@@ -5,6 +5,8 @@ Not a template.  The bodies of
   breakpad-symbols/src/sym_file/types.rs   Function::{memory_range, get_inlinee_at_depth, get_outermost_sourceloc, get_innermost_sourceloc},
                                            StackInfoWin::memory_range
   breakpad-symbols/src/sym_file/mod.rs     SymbolFile::{find_nearest_public, fill_symbol}
+  breakpad-symbols/src/sym_file/parser.rs  the Line::Function arm of SymbolParser::finish_item (line filter, the closure building each line's
+                                           range, into_rangemap_safe, inlinees.retain / sort, memory_range, self.functions.push)
 are tokenised, parsed (a small Rust subset: let / if / if let / match / for x in n.. / return / break / assignment /
 closures / method chains / tuples / ? / as / & / comparison and + -) and compiled, statement by statement, into Gallina
 over the vocabulary of coq/C11/Prims.v:
@@ -311,6 +313,8 @@ class P:
             if len(es) == 1 and not trailing:
                 return es[0]
             return ("tuple", es)
+        if v == "{" and k == "p":
+            return ("blockexpr", self.block())
         if v == "|" and k == "p":
             self.next()
             ps = []
@@ -444,6 +448,11 @@ for sn, fs in EXPECT.items():
             die("struct %s: field `%s` is declared %r, the model's record assumes %r" % (sn, f, STRUCTS[sn].get(f), t))
 
 
+SETTER = {("Function", "lines"): "func_set_lines", ("Function", "inlinees"): "func_set_inlinees"}
+EQB = {"SourceLine": "line_eqb"}                          # `==` of the value type (into_rangemap_safe compares values)
+DERIVED_LT = {"Inlinee": "inl_lt", "PublicSymbol": "pub_lt"}  # derive(Ord): lexicographic in declaration order (pinned by c11_symbolize.py)
+
+
 def coq_type(t):
     if t in ("u64", "u32", "name"):
         return "Z"
@@ -505,6 +514,8 @@ class Gen:
         self.loop = None       # inside a loop body: text returned by `break`
         self.uses_fuel = False
         self.gnames = set()
+        self.out = "v_frame"   # what a function returning () returns: its mutable outputs
+        self.in_closure = False
 
     def fresh(self, stem):
         self.n += 1
@@ -515,7 +526,7 @@ class Gen:
 
     def bind(self, env, rust, t, mut=False):
         """a new Gallina name for a Rust binding (Rust shadowing becomes a fresh name: no capture in let-bound continuations)"""
-        g = "v_" + rust
+        g = "v_" + rust.strip("\0")
         k = 1
         while g in self.gnames:
             k += 1
@@ -542,7 +553,7 @@ class Gen:
         return "Ret None"
 
     def end_unit(self):
-        return "Ret v_frame"
+        return "Ret %s" % par(self.out)
 
     # ---- blocks
     def block(self, stmts, env, k):
@@ -718,7 +729,7 @@ class Gen:
                 return k.fn("None", ("opt", None))
             if n not in env:
                 self.fail("unknown variable `%s`" % n)
-            if env[n][1] in ("module", "frame"):
+            if env[n][1] in ("module", "frame") or env[n][1] == ("S", "SymbolParser"):
                 self.fail("`%s` used other than as the receiver of a known call" % n)
             return k.fn(env[n][0], env[n][1])
         if kind == "path":
@@ -733,7 +744,7 @@ class Gen:
             return self.expr(e[1], env, K(c, k.tail))
         if kind == "field":
             def f(text, t):
-                if isinstance(t, tuple) and t[0] == "S" and e[2] in PROJ[t[1]]:
+                if isinstance(t, tuple) and t[0] == "S" and t[1] in PROJ and e[2] in PROJ[t[1]]:
                     return k.fn("(%s %s)" % (PROJ[t[1]][e[2]], text), STRUCTS[t[1]][e[2]])
                 if t == "range" and e[2] in ("start", "end"):
                     return k.fn("(%s %s)" % ({"start": "fst", "end": "snd"}[e[2]], text), "u64")
@@ -785,6 +796,10 @@ class Gen:
                 x = self.fresh("x")
                 return "do %s <- vec_index %s %s;\n%s" % (x, l, i, k.fn(x, lt[1]))
             return self.exprs([e[1], e[2]], env, ix)
+        if kind in ("try", "return", "break") and self.in_closure:
+            self.fail("`%s` inside a closure body is outside the subset" % {"try": "?"}.get(kind, kind))
+        if kind == "blockexpr":
+            return self.scoped(lambda: self.block(e[1], dict(env), k))
         if kind == "try":
             def tr(text, t):
                 if not (isinstance(t, tuple) and t[0] == "opt"):
@@ -806,6 +821,19 @@ class Gen:
             if self.loop is None:
                 self.fail("`break` outside a loop")
             return self.loop
+        if kind == "assign" and e[1][0] == "field" and e[1][1][0] == "var":
+            n, fld = e[1][1][1], e[1][2]
+            if n not in env or env[n][0] not in [g for _, g, _ in self.muts]:
+                self.fail("assignment to a field of something that is not a `mut` variable")
+            g, t = env[n]
+            if not (isinstance(t, tuple) and t[0] == "S" and (t[1], fld) in SETTER):
+                self.fail("assignment to field `.%s` of %r is not part of the model" % (fld, t))
+
+            def fa(text, vt):
+                if not same_type(vt, STRUCTS[t[1]][fld]):
+                    self.fail("field `.%s` of %r assigned a value of type %r" % (fld, t, vt))
+                return "let %s := %s %s %s in\n%s" % (g, SETTER[(t[1], fld)], g, par(text), k.fn("tt", "unit"))
+            return self.expr(e[2], env, K(fa, k.tail))
         if kind == "assign":
             if e[1][0] != "var" or e[1][1] not in [n for n, _, _ in self.muts] or env.get(e[1][1], ("",))[0] not in [g for _, g, _ in self.muts]:
                 self.fail("assignment to something that is not a `mut` variable")
@@ -887,6 +915,33 @@ class Gen:
             return "(fun '(%s : %s) => %s)" % (pt, ct, body), bt
         return "(fun %s : %s => %s)" % (pt, ct, body), bt
 
+    def closure_any(self, c, argt, env):
+        """(pure?, Coq fun text, result type): a pure closure is a function to the value, an effectful one a function into `outcome`"""
+        if c[0] != "closure" or len(c[1]) != 1:
+            self.fail("expected a one-argument closure")
+        n0, g0, m0 = self.n, set(self.gnames), len(self.muts)
+        env2 = dict(env)
+        pt = self.pat_text(c[1][0], argt, env2)
+        ct = coq_type(argt)
+        binder = "'(%s : %s)" % (pt, ct) if c[1][0][0] == "ptup" else "%s : %s" % (pt, ct)
+        r = self.pure(c[2], env2)
+        if r is not None:
+            del self.muts[m0:]
+            return True, "(fun %s => %s)" % (binder, r[0]), r[1]
+        holder = {}
+
+        def fin(text, t):
+            holder["t"] = t
+            return "Ret %s" % par(text)
+        old_c, old_l = self.in_closure, self.loop
+        self.in_closure, self.loop = True, None
+        body = self.expr(c[2], env2, K(fin, True))
+        self.in_closure, self.loop = old_c, old_l
+        del self.muts[m0:]
+        if "t" not in holder:
+            self.fail("a closure body that never returns a value")
+        return False, "(fun %s =>\n%s)" % (binder, body), holder["t"]
+
     def mcall(self, e, env, k):
         recv, m, args = e[1], e[2], e[3]
         # ---- the two trait objects
@@ -907,6 +962,12 @@ class Gen:
                     return "let v_frame := fr_%s v_frame %s in\n%s" % (m, " ".join(par(x) for x, _ in vs), k.fn("tt", "unit"))
                 return self.exprs(args, env, cb)
             self.fail("frame.%s is not a callback the model records" % m)
+
+        if recv == ("field", ("var", "self"), "functions") and m == "push" and len(args) == 1 and "\0functions" in env:
+            g, ft = env["\0functions"]
+            return self.expr(args[0], env, K(lambda a, at: (
+                "let %s := %s ++ [%s] in\n%s" % (g, g, a, k.fn("tt", "unit")) if same_type(at, ft[1])
+                else self.fail("self.functions.push of %r" % (at,))), k.tail))
 
         def r(text, t):
             tk = t[0] if isinstance(t, tuple) else t
@@ -932,6 +993,44 @@ class Gen:
                 if at != "u32":
                     self.fail("HashMap::get with a key of type %r" % (at,))
                 return k.fn("(assoc_last %s %s)" % (a, text), ("opt", "name"))
+            # ---- parser side (finish_item)
+            if tk == "vec" and m == "into_iter" and not args:
+                return k.fn(text, t)
+            if tk == "vec" and m == "filter" and len(args) == 1:
+                f, ft = self.closure(args[0], t[1], env)
+                if ft != "bool":
+                    self.fail("filter with a predicate of type %r" % (ft,))
+                return k.fn("(filter %s %s)" % (f, text), t)
+            if tk == "vec" and m == "map" and len(args) == 1:
+                pure, f, ft = self.closure_any(args[0], t[1], env)
+                if pure:
+                    return k.fn("(map %s %s)" % (f, text), ("vec", ft))
+                x = self.fresh("x")
+                return "do %s <- vec_mapM %s %s;\n%s" % (x, f, text, k.fn(x, ("vec", ft)))
+            if tk == "vec" and m == "into_rangemap_safe" and not args:
+                et = t[1]
+                if not (isinstance(et, tuple) and et[0] == "tup" and len(et[1]) == 2 and same_type(et[1][0], ("opt", "range"))
+                        and isinstance(et[1][1], tuple) and et[1][1][0] == "S" and et[1][1][1] in EQB):
+                    self.fail("into_rangemap_safe on %r" % (t,))
+                x = self.fresh("x")
+                return "do %s <- build %s %s;\n%s" % (x, EQB[et[1][1][1]], text, k.fn(x, ("rm", et[1][1])))
+            if tk == "vec" and m in ("retain", "sort") and recv[0] == "var" and env[recv[1]][0] in [g for _, g, _ in self.muts]:
+                g = env[recv[1]][0]
+                if m == "retain" and len(args) == 1:
+                    f, ft = self.closure(args[0], t[1], env)
+                    if ft != "bool":
+                        self.fail("retain with a predicate of type %r" % (ft,))
+                    return "let %s := filter %s %s in\n%s" % (g, f, g, k.fn("tt", "unit"))
+                if m == "sort" and not args:
+                    if not (isinstance(t[1], tuple) and t[1][0] == "S" and t[1][1] in DERIVED_LT):
+                        self.fail("sort() of a vector of %r" % (t[1],))
+                    return "let %s := sort_by %s %s in\n%s" % (g, DERIVED_LT[t[1][1]], g, k.fn("tt", "unit"))
+            if tk == "opt" and m == "map" and len(args) == 1 and args[0][0] == "closure":
+                pure, f, ft = self.closure_any(args[0], t[1], env)
+                if pure:
+                    return k.fn("(option_map %s %s)" % (f, text), ("opt", ft))
+                x = self.fresh("x")
+                return "do %s <- opt_mapM %s %s;\n%s" % (x, f, text, k.fn(x, ("opt", ft)))
             if tk == "vec" and m in ("as_slice", "iter") and not args:
                 return k.fn(text, t)
             if tk == "vec" and m == "rev" and not args:
@@ -973,10 +1072,11 @@ class Gen:
                     self.fail("usize::checked_sub of %r" % (at,))
                 return k.fn("(usize_checked_sub %s %s)" % (text, lit(a, at, "usize")), ("opt", "usize"))
             if t in ("u64", "u32") and m == "checked_add" and len(args) == 1:
-                a, at = self.need_pure(args[0], env, "the argument of checked_add")
-                if at != t:
-                    self.fail("checked_add of %r and %r" % (t, at))
-                return k.fn("(checked_add %s %s %s)" % (t[1:], text, a), ("opt", t))
+                def ca(a, at):
+                    if at != t:
+                        self.fail("checked_add of %r and %r" % (t, at))
+                    return k.fn("(checked_add %s %s %s)" % (t[1:], text, a), ("opt", t))
+                return self.expr(args[0], env, K(ca, False))
             self.fail("method `.%s(%d args)` on %r is outside the subset" % (m, len(args), t))
         return self.expr(recv, env, K(r, False))
 
@@ -1074,21 +1174,28 @@ def indent(s):
     return "\n".join(out)
 
 
-def compile_fn(name, what, src, head_re, selfty, params, ret, rett, sigs, want_sig):
-    sig, body = parse_fn(src, head_re, what)
-    if re.sub(r"\s+", " ", sig).strip() != want_sig:
-        die("%s: signature changed:\n  expected: %s\n  source has: %s" % (what, want_sig, re.sub(r"\s+", " ", sig).strip()))
+def compile_fn(name, what, src, head_re, selfty, params, ret, rett, sigs, want_sig, body=None, mut_params=(), outputs=None):
+    if body is None:
+        sig, body = parse_fn(src, head_re, what)
+        if re.sub(r"\s+", " ", sig).strip() != want_sig:
+            die("%s: signature changed:\n  expected: %s\n  source has: %s" % (what, want_sig, re.sub(r"\s+", " ", sig).strip()))
     g = Gen(name, what, ret, sigs)
     env = {}
-    g.bind(env, "self", ("S", selfty))
+    if selfty in COQREC:
+        g.bind(env, "self", ("S", selfty))
+    else:
+        env["self"] = ("v_self", ("S", selfty))
     for n, t in params:
-        g.bind(env, n, t, mut=(t == "frame"))
+        g.bind(env, n, t, mut=(t == "frame" or n in mut_params))
+    if outputs:
+        g.out = outputs
     if ret == "unit":
         k = K(lambda text, t: g.end_unit(), True)
     else:
         k = K(lambda text, t: g.ret_value(text), True)
     txt = g.block(body, env, k)
-    plist = [("v_self", COQREC[selfty])] + [("v_" + n, coq_type(t)) for n, t in params if t not in ("module", "frame")]
+    plist = ([("v_self", COQREC[selfty])] if selfty in COQREC else []) + \
+        [(env[n][0] if n in env else "v_" + n.strip("\0"), coq_type(t)) for n, t in params if t not in ("module", "frame")]
     extra = ""
     if "frame" in env:
         extra = " (mbase instr : Z)"
@@ -1143,9 +1250,42 @@ parts.append(compile_fn(
     r"pub fn fill_symbol\(&self, module", "SymbolFile", [("module", "module"), ("frame", "frame")], "unit", "frame", SIGS,
     "pub fn fill_symbol(&self, module: &dyn Module, frame: &mut dyn FrameSymbolizer)"))
 
+# ---- parser.rs: the Line::Function arm of finish_item (the rest of finish_item is pinned by c11_symbolize.py)
+pa_src = read("breakpad-symbols/src/sym_file/parser.rs")
+FI = "SymbolParser::finish_item, Line::Function arm (parser.rs)"
+_, fi_body = fn_source(pa_src, r"fn finish_item\(&mut self, item: Line\) \{", FI)
+ARM = "Line::Function(mut cur, lines, mut inlinees) =>"
+fi_norm = re.sub(r"\s+", " ", fi_body)
+if not fi_norm.startswith("{ match item { " + ARM + " {"):
+    die("%s: finish_item no longer starts with `match item { %s {`: %s" % (FI, ARM, fi_norm[:120]))
+i0 = fi_body.index("{", fi_body.index("=>"))
+d, j0 = 0, i0
+while True:
+    if fi_body[j0] == "{":
+        d += 1
+    elif fi_body[j0] == "}":
+        d -= 1
+        if d == 0:
+            break
+    j0 += 1
+pp = P(tokenize(fi_body[i0:j0 + 1], FI), FI)
+arm_block = pp.block()
+if pp.peek()[0] != "eof":
+    pp.fail("trailing source")
+m = re.search(r"functions: Vec<\(Range<u64>, Function\)>,", pa_src)
+if not m:
+    die("SymbolParser.functions is no longer Vec<(Range<u64>, Function)>")
+T_FUNCS = ("vec", ("tup", ["range", ("S", "Function")]))
+SIGS[("Function", "memory_range")] = ("src_func_memory_range p", ("opt", "range"), [])
+parts.append(compile_fn(
+    "finish_function", FI, None, None, "SymbolParser",
+    [("\0functions", T_FUNCS), ("cur", ("S", "Function")), ("lines", ("vec", ("S", "SourceLine"))), ("inlinees", ("vec", ("S", "Inlinee")))],
+    "unit", T_FUNCS, SIGS, None, body=arm_block, mut_params=("\0functions", "cur", "inlinees"), outputs="v_functions"))
+
 out = """(* GENERATED by translate/c11_compile.py from breakpad-symbols/src/sym_file/{types,mod}.rs - do not edit.
    The bodies of Function::{memory_range, get_inlinee_at_depth, get_outermost_sourceloc, get_innermost_sourceloc},
-   StackInfoWin::memory_range and SymbolFile::{find_nearest_public, fill_symbol}, compiled statement by statement into Gallina over the
+   StackInfoWin::memory_range, SymbolFile::{find_nearest_public, fill_symbol} and the Line::Function arm of
+   SymbolParser::finish_item (parser.rs), compiled statement by statement into Gallina over the
    vocabulary of C11/Prims.v.  C11/SrcTie.v proves them equal to the hand-written model C11/Model.v. *)
 From RM Require Import Base.Word C08.Model C11.Model C11.Prims.
 Open Scope Z_scope.
